@@ -60,7 +60,7 @@ func ruleSkiplistShape(r *Report) {
 			} else {
 				retDom := func(b *ssa.BasicBlock) bool {
 					for _, rsite := range returnsOf(fn) {
-						if b == rsite.Block || b.Dominates(rsite.Block) {
+						if b == rsite.Block || dominates(b, rsite.Block) {
 							return true
 						}
 					}
@@ -172,7 +172,7 @@ func ruleSkiplistShape(r *Report) {
 						okInc = true
 						// on every path to the return
 						for _, rsite := range returnsOf(fn) {
-							if !s.Block.Dominates(rsite.Block) {
+							if !dominates(s.Block, rsite.Block) {
 								okInc = false
 							}
 						}
@@ -223,7 +223,11 @@ func ruleHeapShape(r *Report) {
 		key := rh + "/pq.PriorityQueue.lessThan"
 		ok := false
 		for _, rsite := range returnsOf(fn) {
-			if bo, isB := rsite.Instr.(*ssa.Return).Results[0].(*ssa.BinOp); isB {
+			bo0, isB := rsite.Instr.(*ssa.Return).Results[0].(*ssa.BinOp)
+			if !isB {
+				continue
+			}
+			for _, bo := range cmpViews(bo0) {
 				if c, isC := bo.X.(*ssa.Call); isC && isCompareCall(c) {
 					if k, isK := constInt(bo.Y); isK {
 						prof := ""
@@ -401,7 +405,7 @@ func ruleHeapShape(r *Report) {
 					// the Done edge shrinks the heap: a store to field size of (size - 1)
 					reach := reachFrom(isS, nil)
 					eachInstr(fn, func(s Site) {
-						if st, isSt := s.Instr.(*ssa.Store); isSt && reach[s.Block] && (s.Block == isS || isS.Dominates(s.Block)) {
+						if st, isSt := s.Instr.(*ssa.Store); isSt && reach[s.Block] && (s.Block == isS || dominates(isS, s.Block)) {
 							if _, f, _, isF := fieldAddrName(st.Addr); isF && f == "size" {
 								if bo, isB := st.Val.(*ssa.BinOp); isB && bo.Op == token.SUB {
 									okDrop = true
@@ -423,13 +427,12 @@ func ruleHeapShape(r *Report) {
 			if len(b.Instrs) == 0 {
 				continue
 			}
-			iff, isI := b.Instrs[len(b.Instrs)-1].(*ssa.If)
-			if !isI {
-				continue
-			}
-			if bo, isB := iff.Cond.(*ssa.BinOp); isB && bo.Op == token.EQL {
-				if _, f, _, isF := loadOfField(bo.X); isF && f == "size" {
-					if k, isK := constInt(bo.Y); isK && k == 0 && returnedSentinel(b.Succs[0]) == "pq.Done" {
+			for _, v := range ifCmpForms(b) {
+				if v.Op != token.EQL {
+					continue
+				}
+				if _, f, _, isF := loadOfField(v.X); isF && f == "size" {
+					if k, isK := constInt(v.Y); isK && k == 0 && returnedSentinel(v.T) == "pq.Done" {
 						okEmpty = true
 					}
 				}
